@@ -1,7 +1,8 @@
 (* C08 -- property theorems only.  Each is closed by [exact] of a lemma of
    Proofs.v and followed by Print Assumptions. *)
 From Coq Require Import ZArith List Bool Arith.
-From Verif.C08 Require Import Model Proofs CoreSym Update Formats.
+From Verif.C15 Require Model.
+From Verif.C08 Require Import Model Proofs CoreSym Update Formats Bsr MlbLink Memo.
 Import ListNotations.
 
 (* chunk_tasks (assemble_tools_cy.pyx:387): for every task list and every requested
@@ -175,9 +176,9 @@ Print Assumptions update_incomplete_stale.
 (* COO -> CSR (scipy coo_tocsr: stable counting sort by row) and COO -> CSC (the same on the
    transposed coordinates) denote the matrix the COO triples denote (duplicates summed), for every
    triple list inside the M x N shape and every coordinate q; no law of the addition is used.
-   NOT PROVED (full format_irrelevant): BSR (block gathering of a CSR matrix) and the step from the
-   multi-level banded data array to COO through C15's nonzero_spec (C08's core_triples re-states that
-   enumeration; the two are tied exactly on every run but not linked by a lemma). *)
+   Together with bsr_denotes_blocks / bsr_gather_same (BSR) and mlb_is_nonzero_order (MLB -> COO, linked
+   to C15's nonzero_spec) below this covers every format of the property; the name keeps its
+   _partial suffix only because the scipy routines themselves are transcribed, not verified. *)
 Theorem format_irrelevant_partial : forall (V : Type) (vzero : V) (vadd : V -> V -> V) M N
     (T : list ((Z * Z) * V)) q,
   (forall t, In t T -> (0 <= fst (fst t) < Z.of_nat M)%Z /\ (0 <= snd (fst t) < Z.of_nat N)%Z) ->
@@ -200,3 +201,50 @@ Theorem sum_duplicates_canonical : forall (V : Type) (vadd : V -> V -> V) (l : l
   strictly_sorted V (canon_row V vadd l).
 Proof. exact canon_row_sorted_l. Qed.
 Print Assumptions sum_duplicates_canonical.
+
+(* BSR with blocks of shape (b0, b1): at scalar coordinate (I*b0 + r, J*b1 + c) the COO list of the
+   block entries (Model.expand_blocks) denotes entry (r,c) of the sum of the blocks stored at (I,J);
+   no law of the addition is used *)
+Theorem bsr_denotes_blocks : forall (V : Type) (vzero : V) (vadd : V -> V -> V) (d : V) (b0 b1 : nat)
+    (BT : list ((Z * Z) * list V)) (I J : Z) (r c : nat),
+  r < b0 -> c < b1 ->
+  den vzero vadd (expand_blocks d b0 b1 BT) (I * Z.of_nat b0 + Z.of_nat r, J * Z.of_nat b1 + Z.of_nat c)%Z
+    = bden V vzero vadd d b1 BT (I, J) r c.
+Proof. exact bsr_denotes_blocks_l. Qed.
+Print Assumptions bsr_denotes_blocks.
+
+(* gathering a scalar matrix into b0 x b1 blocks (tobsr) over a duplicate-free list of block
+   coordinates keeps every entry of the gathered blocks (right identity of the addition only) *)
+Theorem bsr_gather_same : forall (V : Type) (vzero : V) (vadd : V -> V -> V) (d : V) (b0 b1 : nat),
+  (forall a, vadd a vzero = a) ->
+  forall (T : list ((Z * Z) * V)) (keys : list (Z * Z)) (I J : Z) (r c : nat),
+  NoDup keys -> In (I, J) keys -> r < b0 -> c < b1 ->
+  den vzero vadd (expand_blocks d b0 b1 (gather V vzero vadd b0 b1 T keys))
+      (I * Z.of_nat b0 + Z.of_nat r, J * Z.of_nat b1 + Z.of_nat c)%Z
+    = den vzero vadd T (I * Z.of_nat b0 + Z.of_nat r, J * Z.of_nat b1 + Z.of_nat c)%Z.
+Proof. exact gather_same_l. Qed.
+Print Assumptions bsr_gather_same.
+
+(* MLB: the coordinates C08's model gives to the data array of the generic core in the packed
+   layout (core_triples false = combine packed_keys data) are, in data order, the list
+   MLStructure.nonzero() returns for S_base.join(dense(nc)) according to C15's model and its
+   nonzero_spec -- what MLMatrix.asmatrix() zips with data.ravel() *)
+Theorem mlb_is_nonzero_order : forall (bs : list (Z * Z)) (nr ncl : Z) (lv : list (list (Z * Z))),
+  length bs = length lv -> (0 <= nr)%Z -> (0 < ncl)%Z ->
+  C15.Model.nonzero (bs ++ [(nr, ncl)]) (lv ++ [C15.Model.compute_dense_ij nr ncl]) false
+    = Some (packed_keys bs (nr, ncl) lv).
+Proof. exact mlb_is_nonzero_order_l. Qed.
+Print Assumptions mlb_is_nonzero_order.
+
+(* ---- caches (Memo.v) ---- *)
+
+(* A memoised function returns, for EVERY history of calls in one process, what the underlying
+   function returns  iff  equal cache keys imply equal results.  (Seeded change C08-4 keyed the
+   sparsity pattern on (p, numdofs, mesh): Examples2.ex_c084_* is a pair of knot vectors with equal
+   key and different patterns.) *)
+Theorem memo_sound_iff_key_determines : forall (K X R : Type) (K_eqb : K -> K -> bool),
+  (forall a b, K_eqb a b = true <-> a = b) ->
+  forall (key : X -> K) (f : X -> R),
+  (forall xs, run_calls K_eqb key f [] xs = map f xs) <-> key_determines K X R key f.
+Proof. exact memo_sound_iff_key_determines_l. Qed.
+Print Assumptions memo_sound_iff_key_determines.
